@@ -24,6 +24,10 @@ def main():
     if args and args[0].startswith("--meta="):
         agent_meta = args.pop(0)[7:]
     confirm_only = use_confirm = None
+    race = ""
+    if args and args[0] == "--race":
+        args.pop(0)
+        race = "-race "
     if args and args[0] == "--confirm-only":
         confirm_only = args.pop(0)
     if args and args[0].startswith("--use-confirm="):
@@ -47,13 +51,13 @@ def main():
         shutil.copy(demo, dst)
         run = re.findall(r"^func (Test\w+)\(", open(demo).read(), flags=re.M)
         runre = "^(%s)$" % "|".join(run)
-        rc0, out0 = sh("go test -vet=off -count=1 -run '%s' ./%s" % (runre, pkgdir), cwd=wt)
+        rc0, out0 = sh("go test %s-vet=off -count=1 -run '%s' ./%s" % (race, runre, pkgdir), cwd=wt)
         res["demo_passes_without"] = rc0 == 0
         rc, out = sh("git apply %s" % patch, cwd=wt)
         if rc != 0:
             res["error"] = "patch does not apply: " + out[-500:]
             print(json.dumps(res)); return 1
-        rc1, out1 = sh("go test -vet=off -count=1 -run '%s' ./%s" % (runre, pkgdir), cwd=wt)
+        rc1, out1 = sh("go test %s-vet=off -count=1 -run '%s' ./%s" % (race, runre, pkgdir), cwd=wt)
         res["demo_fails_with"] = rc1 != 0
         os.remove(dst)
         rcb, outb = sh("go build ./... && go test -vet=off -count=1 ./...", cwd=wt)
